@@ -121,6 +121,14 @@ impl Namer {
                 let n = self.any.len() as u32;
                 T::Any(*self.any.entry(*id).or_insert(n))
             }
+            LTermInner::Compound(_) => match crate::cmpd::parts(t) {
+                Some((k, fields)) if fields.len() == 2 => {
+                    let a = self.conv_all_any(&fields[0]);
+                    let b = self.conv_all_any(&fields[1]);
+                    T::cmp(k, a, b)
+                }
+                _ => T::S("<compound>".to_string()),
+            },
             _ => self.conv(t, false, false),
         }
     }
@@ -157,7 +165,14 @@ impl Namer {
             }
             LTermInner::User(_) => T::S("<user>".to_string()),
             LTermInner::Projection(_) => T::S("<projection>".to_string()),
-            LTermInner::Compound(_) => T::S("<compound>".to_string()),
+            LTermInner::Compound(_) => match crate::cmpd::parts(t) {
+                Some((k, fields)) if fields.len() == 2 => {
+                    let a = self.conv(&fields[0], name_any, name_hidden);
+                    let b = self.conv(&fields[1], name_any, name_hidden);
+                    T::cmp(k, a, b)
+                }
+                _ => T::S("<compound>".to_string()),
+            },
         }
     }
 }
